@@ -593,3 +593,33 @@ Proof.
       pose proof (Hsmall (m - 1)%nat ltac:(lia)). lia. }
     rewrite Hcount. split; lia.
 Qed.
+
+(* ------------------------------------------------------------------ *)
+(* MulHz is [run] over its control signal (any arithmetic, any format) *)
+Section MulHz.
+Context {N : Num} {Fm : Fmt N}.
+
+Lemma is_exhausted_set_ratio (c : conv Fm) r : is_exhausted (set_playback_hz_scale c r) = is_exhausted c.
+Proof. reflexivity. Qed.
+
+Theorem run_mul_run (fuel : nat) : forall (n : nat) (m : mulhz Fm), (n <= length (ctl m))%nat ->
+  run_mul fuel n m =
+  match run fuel (firstn n (ctl m)) (mconv m) with
+  | Diverges => Diverges
+  | Done (os, c') => Done (os, {| mconv := c'; ctl := skipn n (ctl m) |})
+  end.
+Proof.
+  induction n as [|n IH]; intros m Hn.
+  - cbn [run_mul firstn run skipn]. destruct m; reflexivity.
+  - destruct m as [c l]. cbn [ctl mconv] in *. destruct l as [|r l]; [cbn in Hn; lia|].
+    cbn [run_mul firstn run skipn mul_next ctl_next ctl mconv].
+    destruct (next fuel (set_playback_hz_scale c r)) as [[out c1]|]; [|reflexivity].
+    rewrite IH by (cbn [ctl length] in *; lia). cbn [ctl mconv].
+    destruct (run fuel (firstn n l) c1) as [[os c2]|]; [|reflexivity].
+    unfold mul_exhausted. cbn [ctl mconv]. rewrite orb_false_r, is_exhausted_set_ratio. reflexivity.
+Qed.
+
+(* once the control signal has ended, MulHz reports exhaustion *)
+Lemma mul_exhausted_ctl_end (m : mulhz Fm) : ctl m = [] -> mul_exhausted m = true.
+Proof. intros H. unfold mul_exhausted. rewrite H. apply orb_true_r. Qed.
+End MulHz.
